@@ -60,6 +60,9 @@ SLASH_PATS = {
     r'[/]': ['/'],
     r"a/'b": ["a/'b"],
     r'/': ['/'],
+    r'[a-c]+\\/[a-c]+': ['a\\/b'],       # an escaped BACKSLASH followed by a real slash
+    r'\\/': ['\\/'],
+    r'a\/b\\/c': ['a/b\\/c'],           # both an escaped slash and escaped-backslash + slash
 }
 SLASH_DQUOTE_PATS = {            # hazard: both '/' and '"'
     r'a/"b': ['a/"b'],
